@@ -12,8 +12,11 @@ additionally compared with the verified optimum (`optw`, extracted from RefModel
 
 A relation case (corpus line, replay) is self-contained:
     C <nb> (<coef_i> <graph_i>)*nb <graph'>          graph = n m (u v w)*m ;  claim: opt(graph') = sum coef_i * opt(graph_i)
-(nb = 0: only the agreement of all entry points on graph')."""
-import json, os
+(nb = 0: only the agreement of all entry points on graph').
+Weight types: double, int and long long (M L: 64-bit integers).  Families of graphs whose weights lie ABOVE 2^53 (props/c12.py weigh64: sums that are not doubles,
+distinct weights that collide as doubles, (m+4)*sum(w) < 2^63) are run with long long weights only (a graph whose weights sum to 2^50 or more is never given to the
+double instantiation); graphs of the ordinary families are sometimes run with long long weights as well.  Python integers throughout: no float on the way."""
+import json, os, random
 import lib, gen, mcb_oracle as O
 
 PID = "C08"
@@ -21,6 +24,16 @@ THEOREMS = ["Properties_C08.v", "Properties_C08_variants.v"]
 LIBS = ["-ltbb", "-lboost_timer"]
 ALGS = ["signed", "fvs", "iso", "signed_tbb", "fvs_tbb", "iso_tbb"]
 INT_LIMIT = 2 ** 31 - 1
+DBL_SUM_LIMIT = 2 ** 50          # graphs whose weights sum to this or more are outside the exact domain of the double instantiation: long long only
+
+
+def is64(g):
+    return sum(w for _, _, w in g[1]) >= DBL_SUM_LIMIT
+
+
+def long_ok(g):
+    from props import c12
+    return c12.long_domain_ok(g)
 
 
 # ---------------------------------------------------------------------------------------------------------------------
@@ -152,7 +165,12 @@ def big_graph(rng, n):
     return g
 
 
-def base_graph(rng, maxn, big):
+def base_graph(rng, maxn, big, w64=False):
+    if w64:
+        from props import c12
+        r = rng.random()
+        g = gen.structural(rng, maxn) if r < 0.6 else gen.random_graph(rng, rng.randint(5, maxn), rng.choice([0.3, 0.5, 0.7])) if r < 0.85 else gen.complete(rng.randint(4, 7))
+        return c12.weigh64(rng, g)
     if big:
         n = rng.randint(*maxn) if isinstance(maxn, tuple) else rng.randint(max(8, maxn // 4), maxn)
         g = big_graph(rng, n)
@@ -172,6 +190,7 @@ def derive(rng, bases, bi, nchain):
             bj = rng.randrange(len(bases))
             h = bases[bj]
             if g[0] + h[0] > 700: continue
+            if is64(g) and not long_ok(union(g, h)): continue
             g = union(g, h) if rng.random() < 0.5 else union(h, g)
             coefs[bj] = coefs.get(bj, 0) + 1; names.append("union")
             if rng.random() < 0.4:
@@ -182,7 +201,7 @@ def derive(rng, bases, bi, nchain):
         res = f(rng, g)
         if res is None: continue
         g2, mult = res
-        if sum(w for _, _, w in g2[1]) >= 2 ** 50: continue
+        if (not long_ok(g2)) if is64(g) else (sum(w for _, _, w in g2[1]) >= DBL_SUM_LIMIT): continue      # stay inside the exact domain of the weight type
         g = g2; names.append(name)
         if mult != 1: coefs = {k: v * mult for k, v in coefs.items()}
     if not names: return None
@@ -192,8 +211,10 @@ def derive(rng, bases, bi, nchain):
 def harness_lines(rng, g, want_all=True):
     """the runs made on one graph: double weights (unit scale), sometimes int weights, sometimes doubles scaled by a power of two"""
     gt = gen.graph_tokens(g)
+    if is64(g): return ["M L 0 all " + gt]                 # 64-bit weights: the long long instantiation only (no rng draw: the other streams are unchanged)
     tot = sum(w for _, _, w in g[1])
     lines = ["M D 0 all " + gt]
+    if (len(gt) + tot) % 6 == 0: lines.append("M L 0 all " + gt)      # the long long instantiation on ordinary weights, every sixth graph or so
     if gen.int_domain_ok(g) and rng.random() < 0.5: lines.append("M I 0 all " + gt)
     if rng.random() < 0.3: lines.append("M D %d all %s" % (rng.choice([-3, -20, 5, 30, -60, -200, -300, 100, 300]), gt))   # all exact: powers of two, no over/underflow
     return lines
@@ -355,10 +376,10 @@ def evaluate(c, exe, groups, refok, tier, count=True):
     c.extra["entry_point_runs"] = c.extra.get("entry_point_runs", 0) + sum(len(v[0]) for v in gv)
 
 
-def make_groups(rng, nbase, maxn, big, per_base):
+def make_groups(rng, nbase, maxn, big, per_base, w64=False):
     bases = []
     while len(bases) < nbase:
-        g, style = base_graph(rng, maxn, big)
+        g, style = base_graph(rng, maxn, big, w64)
         bases.append(g)
     groups = []
     for bi in range(len(bases)):
@@ -385,7 +406,8 @@ def check(tier, seed):
     c.rule = ("base graph g from the structured families of tools/gen.py (n <= %d) and sparse/medium random graphs, grids, hypercubes, block unions, cycles with "
               "chords (n <= %d), weights unit/ties/wide/pow2; for each g: every single transformation (renumbering, edge order+orientation, isolated vertices, "
               "pendant trees, bridge, subdivision, scaling 2^j, union with another base) and random compositions of 2-4 of them; each graph is run through the 6 "
-              "exact non-MPI entry points with double weights (and int / power-of-two-scaled double weights at random); one evaluation = one relation instance "
+              "exact non-MPI entry points with double weights (and int / long long / power-of-two-scaled double weights at random); plus base graphs (n <= 14, thorough n <= 30) with long long "
+              "weights above 2^53 (2^53+r, 2^54+{0..3}, 2^54+permutation, 2^b+r up to b = 60, heavy/light mixes; (m+4)*sum(w) < 2^63 also after every transformation) run with long long weights only; one evaluation = one relation instance "
               "(all entry points); distinct by md5 of the relation; non-trivial = cycle space dimension of the transformed graph >= 2") % \
              ((30, 30) if tier == "quick" else (40, 300))
     c.step_prove()
@@ -403,16 +425,22 @@ def check(tier, seed):
         if tier == "quick":
             groups = make_groups(c.rng, 300, 14, False, (8, 3)) + make_groups(c.rng, 100, 30, False, (5, 3)) + make_groups(c.rng, 40, 30, True, (5, 3))
             groups += make_groups(c.rng, 2, (260, 330), True, (2, 2))          # a few graphs beyond 255 vertices / edges (narrow index types) in the quick tier too
+            g64 = make_groups(random.Random(seed * 7919 + 808), 70, 14, False, (8, 3), w64=True)      # 64-bit weights above 2^53 (own stream)
+            c.extra["relation_instances_64bit_weights"] = len(g64)
             evaluate(c, exe, groups, refok, tier)
+            evaluate(c, exe, g64, refok, tier)            # (a run of its own: the third opinions below are capped per run)
         else:
             groups = make_groups(c.rng, 500, 14, False, (8, 4)) + make_groups(c.rng, 220, 40, False, (6, 4))
             evaluate(c, exe, groups, refok, tier)
             groups = make_groups(c.rng, 44, 100, True, (5, 3)) + make_groups(c.rng, 26, 300, True, (4, 2))
             evaluate(c, exe, groups, refok, tier)
+            g64 = make_groups(random.Random(seed * 7919 + 808), 400, 14, False, (8, 4), w64=True) + make_groups(random.Random(seed * 7919 + 809), 120, 30, False, (6, 4), w64=True)
+            c.extra["relation_instances_64bit_weights"] = len(g64)
+            evaluate(c, exe, g64, refok, tier)
     if not refok:
         c.notes.append("verified reference optimum (RefModel optw) not available in this run")
     return c.finish(
-        assumptions=["exact domain: simple graphs, positive integer weights (doubles = integers times a power of two, all sums below 2^53; int weights only when 2*sum < 2^31)",
+        assumptions=["exact domain: simple graphs, positive integer weights (doubles = integers times a power of two, all sums below 2^53; int weights only when (m+4)*sum < 2^31; long long weights with (m+4)*sum < 2^63)",
                      "the *_tbb entry points are run on the real oneTBB scheduler with 4 workers (whatever schedule happens); controlled schedules are C03's business",
                      "MPI entry points are not run here (C04)"],
         trusted_extra=["tools/props/c08.py: the transformations themselves (renumbering, union, subdivision, ... are implemented in Python and trusted to be what they say)"],
@@ -430,8 +458,9 @@ def replay(path):
     coefs, bases, g = parse_relation_line(r["case"])
     bad = None
     def runs(gr):
-        gt = gen.graph_tokens(gr); ls = ["M D 0 all " + gt]
+        gt = gen.graph_tokens(gr); ls = ["M D 0 all " + gt] if not is64(gr) else []
         if gen.int_domain_ok(gr): ls.append("M I 0 all " + gt)
+        if long_ok(gr): ls.append("M L 0 all " + gt)
         ls += [l for l in r.get("runs", []) if l not in ls and l.split()[4:] == gt.split()]
         vals, problem = graph_values(ls, lib.run_lines([exe], ls, par=1))
         print("graph:", gt[:300]); print("  values:", " ".join("%s=%d" % (a, v) for a, v, _ in vals), "" if not problem else "PROBLEM " + problem)
